@@ -18,6 +18,7 @@ package sfnt
 
 import (
 	"fmt"
+	"slices"
 
 	"golang.org/x/exp/maps"
 	"seehuhn.de/go/postscript/cid"
@@ -260,6 +261,7 @@ func (s *subsetter) SubsetGsub(old *gtab.Info) *gtab.Info {
 				sNew := &gtab.Gsub1_2{
 					Cov: make(map[glyph.ID]int),
 				}
+				repl := make(map[glyph.ID]glyph.ID)
 				for oldOrig := range sOld.Cov {
 					newFrom, ok := s.newGid[oldOrig]
 					if !ok {
@@ -267,8 +269,12 @@ func (s *subsetter) SubsetGsub(old *gtab.Info) *gtab.Info {
 					}
 
 					newTo := oldOrig + sOld.Delta
+					repl[newFrom] = s.getNewGid(newTo)
+				}
+				// coverage indices must be assigned in increasing glyph order
+				for _, newFrom := range sortedKeys(repl) {
 					sNew.Cov[newFrom] = len(sNew.SubstituteGlyphIDs)
-					sNew.SubstituteGlyphIDs = append(sNew.SubstituteGlyphIDs, s.getNewGid(newTo))
+					sNew.SubstituteGlyphIDs = append(sNew.SubstituteGlyphIDs, repl[newFrom])
 				}
 				if len(sNew.Cov) > 0 {
 					tNew.Subtables = append(tNew.Subtables, sNew)
@@ -283,6 +289,7 @@ func (s *subsetter) SubsetGsub(old *gtab.Info) *gtab.Info {
 				sNew := gtab.Gsub4_1{
 					Cov: make(coverage.Table),
 				}
+				repl := make(map[glyph.ID][]gtab.Ligature)
 				for oldFirst, idx := range sOld.Cov {
 					newFirst, ok := s.newGid[oldFirst]
 					if !ok {
@@ -306,9 +313,13 @@ func (s *subsetter) SubsetGsub(old *gtab.Info) *gtab.Info {
 						ligs = append(ligs, newLig)
 					}
 					if len(ligs) > 0 {
-						sNew.Cov[newFirst] = len(sNew.Repl)
-						sNew.Repl = append(sNew.Repl, ligs)
+						repl[newFirst] = ligs
 					}
+				}
+				// coverage indices must be assigned in increasing glyph order
+				for _, newFirst := range sortedKeys(repl) {
+					sNew.Cov[newFirst] = len(sNew.Repl)
+					sNew.Repl = append(sNew.Repl, repl[newFirst])
 				}
 				if len(sNew.Cov) > 0 {
 					tNew.Subtables = append(tNew.Subtables, &sNew)
@@ -500,6 +511,12 @@ func (s *subsetter) SubsetGlyf(oldOutlines *glyf.Outlines) *glyf.Outlines {
 	// TODO(voss): can anything be done to make the "fpgm" table smaller?
 
 	return newOutlines
+}
+
+func sortedKeys[T any](m map[glyph.ID]T) []glyph.ID {
+	keys := maps.Keys(m)
+	slices.Sort(keys)
+	return keys
 }
 
 func pop(todo map[glyph.ID]bool) glyph.ID {
